@@ -287,7 +287,8 @@ class TypeDef:
             return ", ".join(parts)
 
         if self.kind == "union":
-            out.append("pub union %s { %s }" % (self.name, fields_src(self.variants[0])))
+            g = "<T: Copy>" if getattr(self, "generic", False) else ""
+            out.append("pub union %s%s { %s }" % (self.name, g, fields_src(self.variants[0])))
         elif self.kind == "struct":
             v = self.variants[0]
             if v.shape == "unit":
